@@ -1429,8 +1429,33 @@ def f_sort(a, axis=-1, **kw):
     return SymArray(np.moveaxis(out, -1, axis), a.kind)
 
 
+def f_argsort(a, axis=-1, kind=None, **kw):
+    """stable ascending argsort (NaNs last) by an odd-even transposition network over (value, index) pairs"""
+    a = as_symarray(a)
+    if a.ndim != 1:
+        raise Unsupported('argsort of a %d-d array' % a.ndim)
+    v = list(a._a); idx = list(range(len(v))); n = len(v)
+    if n > 32:
+        raise Unsupported('argsort of > 32 symbolic elements')
+
+    def less(x, y):
+        return sor(sand(snot(isnan(x)), isnan(y)), binop('lt', x, y))
+    for rnd in range(n):
+        for i in range(rnd % 2, n - 1, 2):
+            c = less(v[i + 1], v[i])
+            v[i], v[i + 1] = ite(c, v[i + 1], v[i]), ite(c, v[i], v[i + 1])
+            idx[i], idx[i + 1] = ite(c, idx[i + 1], idx[i]), ite(c, idx[i], idx[i + 1])
+    o = np.empty(n, dtype=object)
+    for i, e in enumerate(idx):
+        o[i] = e if isinstance(e, Sym) else np.int64(e)
+    return SymArray(o, result_kind(o, 'i8') if any(isinstance(e, Sym) for e in idx) else 'i8')
+
+
 def _median_of(vals, nan_aware):
     """numpy median of a list (NaN -> NaN unless nan_aware: median of the non-NaN values, NaN if none)"""
+    if nan_aware:
+        # concretely-NaN entries never take part: drop them before building the network
+        vals = [v for v in vals if not (not isinstance(v, Sym) and bool(np.isnan(v)))]
     n = len(vals)
     s = sort_network(vals)
     k = kind_of(vals[0]) if n else 'f8'
@@ -1563,7 +1588,7 @@ def f_pad(a, pad_width, mode='constant', constant_values=0, **kw):
 FUNCS = {'amax': f_max, 'max': f_max, 'amin': f_min, 'min': f_min, 'nanmin': _nanext('min'), 'nanmax': _nanext('max'),
          'sum': f_sum, 'nansum': f_nansum, 'mean': f_mean, 'any': f_any, 'all': f_all,
          'argmin': f_argext(False), 'argmax': f_argext(True), 'nanargmin': f_argext(False, True), 'nanargmax': f_argext(True, True),
-         'where': f_where, 'nonzero': lambda a: f_where(a), 'clip': f_clip, 'sort': f_sort,
+         'where': f_where, 'nonzero': lambda a: f_where(a), 'clip': f_clip, 'sort': f_sort, 'argsort': f_argsort,
          'median': lambda a, axis=None, **k: f_median(a, axis, False), 'nanmedian': lambda a, axis=None, **k: f_median(a, axis, True),
          'cumsum': f_cumsum, 'copy': lambda a, **k: a.copy(), 'full_like': f_full_like,
          'zeros_like': lambda a, dtype=None, **k: f_full_like(a, 0, dtype), 'ones_like': lambda a, dtype=None, **k: f_full_like(a, 1, dtype),
